@@ -243,7 +243,10 @@ def stage_accessor_caches(ctx: Ctx, progs):
             continue
         ctx.tick(('acc', pi, lineno, how, op['comment'], op['text']), 'accessor:' + how)
         bad = compare_with_fresh(root, rng, 10, path)
-        if bad:
+        if bad and how == 'line_comment' and edits.stmt_before_continuation_semicolon(src, tgt):
+            ctx.violation('line-comment-put-before-continuation-semicolon', 'put_line_comment on a statement followed by a line continuation and a lone ";" leaves the ";" on a line of its own',
+                          {'start_src': src, 'op': edits.op_brief(op), 'src_now': root.src, **bad})
+        elif bad:
             ctx.violation(f'query|{bad.get("query", bad["why"][:30])}|{bad.get("node", "")}|accessor:{how}',
                           'after a comment/docstring accessor put, a query answers differently from a fresh tree (stale cache)',
                           {'start_src': src, 'op': edits.op_brief(op), 'src_now': root.src, **bad})
